@@ -129,6 +129,15 @@ def key_case(curve, d, Q, n, plen, encs):
                     rd.enc_int(1), rd.enc_seq(rd.enc_oid(rd.OID_EC_PUBKEY),
                                               rd.enc_oid(oid)),
                     rd.enc_octets(inner))
+                if fmt == "pkcs8" and der != want:
+                    # the version number is not fixed by the property: 0
+                    # (RFC 5208 / what OpenSSL writes) is as good as 1
+                    alt = rd.enc_seq(
+                        rd.enc_int(0),
+                        rd.enc_seq(rd.enc_oid(rd.OID_EC_PUBKEY),
+                                   rd.enc_oid(oid)), rd.enc_octets(inner))
+                    if der == alt:
+                        want = alt
                 if der != want:
                     bad.append(("sk-der-bytes:%s:%s" % (fmt, enc), want, der))
                 try:
